@@ -11,7 +11,9 @@ import (
 // ---- noise at tree level: unknown attributes and elements, order of children ----
 
 var unknownAttrs = []string{"zzattr", "x-extra", "Q1", "data-src", "xid", "lat2", "_k"}
-var unknownElems = []string{"zzfoo", "x-extra", "Unknown1", "q_el", "remark", "meta2", "center"}
+// unknown element names, among them names that only a Unicode case mapping would turn into
+// an object kind (U+0130, U+212A)
+var unknownElems = []string{"zzfoo", "x-extra", "Unknown1", "q_el", "remark", "meta2", "center", "relat\u0130on", "\u212Aey", "n\u00F8de"}
 
 func noiseElem(r *rand.Rand, depth int) *XNode {
 	n := &XNode{Name: unknownElems[r.Intn(len(unknownElems))], Extra: true, Leaf: true}
